@@ -1227,11 +1227,13 @@ impl PrettyPrint for Statement<'_> {
         match self {
             Statement::DefineVariable(DefineVariable {
                 name,
+                decorators,
                 expr,
                 readable_type,
                 ..
             }) => {
-                m::keyword("let")
+                decorator_markup(decorators)
+                    + m::keyword("let")
                     + m::space()
                     + m::identifier(name.to_compact_string())
                     + m::operator(":")
@@ -1244,6 +1246,7 @@ impl PrettyPrint for Statement<'_> {
             }
             Statement::DefineFunction {
                 function_name,
+                decorators,
                 type_parameters,
                 parameters,
                 body,
@@ -1288,18 +1291,20 @@ impl PrettyPrint for Statement<'_> {
                     pretty_local_variables = Some(plv);
                 }
 
-                pretty_print_function_signature(
-                    function_name,
-                    &fn_type,
-                    &type_parameters,
-                    parameters
-                        .iter()
-                        .map(|(_, name, _, type_)| (*name, type_.clone())),
-                    readable_return_type,
-                ) + body
-                    .as_ref()
-                    .map(|e| m::space() + m::operator("=") + m::space() + e.pretty_print())
-                    .unwrap_or_default()
+                decorator_markup(decorators)
+                    + pretty_print_function_signature(
+                        function_name,
+                        &fn_type,
+                        &type_parameters,
+                        parameters
+                            .iter()
+                            .map(|(_, name, _, type_)| (*name, type_.clone())),
+                        readable_return_type,
+                    )
+                    + body
+                        .as_ref()
+                        .map(|e| m::space() + m::operator("=") + m::space() + e.pretty_print())
+                        .unwrap_or_default()
                     + pretty_local_variables.unwrap_or_default()
             }
             Statement::Expression(expr) => expr.pretty_print(),
